@@ -338,19 +338,8 @@ Together these are necessary conditions for byte-identical output under repetiti
     // the work list of Validator::link is derived from the name-keyed map and from nothing else
     if let Ok(f) = m.find_fn(Some("Validator"), "link", None) {
         ctx.func(&f.key);
-        struct W { pops: Vec<String>, lets: Vec<(Vec<String>, String)> }
+        struct W { lets: Vec<(Vec<String>, String)> }
         impl model::DeepCb for W {
-            fn expr(&mut self, e: &syn::Expr) {
-                if let syn::Expr::While(w) = e {
-                    if let syn::Expr::Let(l) = &*w.cond {
-                        if let syn::Expr::MethodCall(mc) = &*l.expr {
-                            if mc.method == "pop" || mc.method == "pop_front" || mc.method == "pop_back" || mc.method == "next" {
-                                self.pops.push(tok(&mc.receiver));
-                            }
-                        }
-                    }
-                }
-            }
             fn local(&mut self, l: &syn::Local) {
                 if let Some(init) = &l.init {
                     let mut names = vec![];
@@ -359,12 +348,16 @@ Together these are necessary conditions for byte-identical output under repetiti
                 }
             }
         }
-        let mut w = W { pops: vec![], lets: vec![] };
+        let mut w = W { lets: vec![] };
         model::deep_walk_block(&f.block, &mut w);
+        // every pass over the definitions takes its keys from a list
+        let pops: Vec<String> = crate::rules::util::link_key_loops(f).into_iter().map(|l| l.work_list).collect::<std::collections::BTreeSet<_>>().into_iter().collect();
         ctx.oblige("C11.order", "link.work-list", true);
-        match w.pops.first() {
-            None => ctx.fail_closed("C11.order", "Validator::link: no `while let Some(..) = <work list>.pop()` loop"),
-            Some(wl) => {
+        if pops.is_empty() {
+            ctx.fail_closed("C11.order", "Validator::link: no pass over a work list of definitions was found");
+        }
+        for wl in &pops {
+            {
                 let init = w.lets.iter().find(|(names, _)| names.iter().any(|n| n == wl)).map(|(_, i)| i.clone());
                 match init {
                     None => ctx.fail_closed("C11.order", &format!("Validator::link: the work list `{}` has no initialiser", wl)),
